@@ -409,6 +409,272 @@ fn run_guest(t: &mut Tape, cx: &mut Cx) -> Result<(), String> {
     raw_compare(&mem, &want, 0x5C)
 }
 
+// ---------------------------------------------------------------------------------------------
+// the crate's own stream objects (no scripted faults: end-of-stream, full sinks and the short
+// transfers real descriptors produce)
+
+fn pipe_pair() -> Result<(std::fs::File, std::fs::File), String> {
+    use std::os::fd::FromRawFd;
+    let mut fds = [0i32; 2];
+    // SAFETY: plain pipe(2).
+    let rc = unsafe { libc::pipe(fds.as_mut_ptr()) };
+    ensure!(rc == 0, "HARNESS-PANIC: pipe failed");
+    // SAFETY: fresh descriptors owned by the returned files.
+    Ok(unsafe { (std::fs::File::from_raw_fd(fds[0]), std::fs::File::from_raw_fd(fds[1])) })
+}
+
+fn adapters_body<S: Subject>(mem: &S, lay: &Layout, t: &mut Tape, cx: &mut Cx) -> Result<(), String> {
+    let fill = |ri: usize, o: usize| ((ri * 64 + o * 2) as u8) & 0xFE;
+    raw_fill(mem, lay, fill, 0x5C);
+    let model = FlatModel::new(lay.clone(), fill);
+    let (b0, l0) = lay.regs[0];
+    let (b1, l1) = lay.regs[1];
+    match t.below(4) {
+        0 => {
+            // region level: region 0 addressed by offsets
+            let off = match t.below(4) {
+                0 => l0,
+                1 => l0 + 1 + t.below(3),
+                2 => l0 - 1 - t.below(l0.min(9)),
+                _ => t.below(l0 + 1),
+            };
+            cx.label("region_level");
+            let r = mem.iter().next().unwrap();
+            adapters_core(mem, lay, &model, r, &|a| MemoryRegionAddress(a - b0), b0 + off, l0.saturating_sub(off) as usize, false, "region", t, cx)
+        }
+        1 => {
+            // slice level: the slice guest memory hands out for region 0
+            let off = match t.below(4) {
+                0 => l0,
+                1 => l0 + 1 + t.below(3),
+                2 => l0 - 1 - t.below(l0.min(9)),
+                _ => t.below(l0 + 1),
+            };
+            cx.label("slice_level");
+            let vs = mem.get_slice(GuestAddress(b0), l0 as usize).map_err(|e| format!("get_slice of region 0: {:?}", e))?;
+            adapters_core(mem, lay, &model, &vs, &|a| (a - b0) as usize, b0 + off, l0.saturating_sub(off) as usize, false, "slice", t, cx)
+        }
+        _ => {
+            let a = match t.below(6) {
+                0 => b0 + l0 - 1,
+                1 => b1,
+                2 => b1 + l1,
+                3 => b1 + l1 - 1,
+                4 => b0 + l0 - 1 - t.below(l0.min(9)),
+                _ => b0 + t.below(l0 + l1 + 2),
+            };
+            cx.label("guest_level");
+            let run = lay.run(a).min(1 << 20) as usize;
+            adapters_core(mem, lay, &model, mem, &GuestAddress, a, run, true, "mem", t, cx)
+        }
+    }
+}
+
+/// `b` is addressed through `at(absolute guest address)`; `run` = bytes transferable from `a`.
+#[allow(clippy::too_many_arguments)]
+fn adapters_core<S: Subject, A: Copy, B: Bytes<A> + ?Sized>(mem: &S, lay: &Layout, model: &FlatModel, b: &B, at: &dyn Fn(u64) -> A, a: u64, run: usize, guest_level: bool, level: &str, t: &mut Tape, cx: &mut Cx) -> Result<(), String>
+where
+    B::E: std::fmt::Debug,
+{
+    use std::io::{Cursor, Read, Seek, Write};
+    use std::os::unix::fs::FileExt;
+    let (_, _) = (mem, guest_level);
+    let b1 = lay.regs[1].0;
+    let count = match t.below(6) {
+        0 => run,
+        1 => run + 1 + t.idx(4),
+        2 => run.saturating_sub(1 + t.idx(3)),
+        3 => (b1.saturating_sub(a)) as usize,
+        _ => t.idx(run.min(300) + 3),
+    }
+    .clamp(1, 9000);
+    let avail = match t.below(5) {
+        0 => count,
+        1 => count + 1 + t.idx(3),
+        2 => count.saturating_sub(1 + t.idx(3)),
+        3 => 0,
+        _ => t.idx(count + 2),
+    };
+    let op = t.below(4);
+    let reading = op < 2;
+    let exact = op % 2 == 1;
+    let kind = t.below(if reading { 4 } else { 5 });
+    let opname = ["read_volatile_from", "read_exact_volatile_from", "write_volatile_to", "write_all_volatile_to"][op as usize];
+    let kname = if reading { ["&[u8]", "Cursor<&[u8]>", "File", "pipe"][kind as usize] } else { ["Vec", "&mut [u8]", "Cursor<&mut [u8]>", "File", "pipe"][kind as usize] };
+    let what = format!("{}{}.{}(@ {:#x}, {} with {} bytes {}, count {}, run {})", level, lay.describe(), opname, a, kname, avail, if reading { "available" } else { "of room" }, count, run);
+    note!(cx, "{}", what);
+    cx.nt("crate_stream_object");
+    if run > 0 && count > run {
+        cx.nt("runs_into_hole");
+    }
+    if avail < count {
+        cx.nt(if reading { "source_ends_early" } else { "sink_fills_up" });
+    }
+    if guest_level && lay.find(a) == Some(0) && a + (count.min(run) as u64) > b1 {
+        cx.nt("crosses_region_boundary");
+    }
+    let rmap = |r: Result<usize, B::E>| r.map_err(|e| format!("{:?}", e));
+    if reading {
+        let p0 = if kind == 1 { t.idx(4) } else { 0 };
+        let data: Vec<u8> = (0..p0 + avail).map(stream_byte).collect();
+        let (res, consumed): (Result<usize, String>, usize) = match kind {
+            0 => {
+                let mut s: &[u8] = &data[..];
+                let r = if exact { b.read_exact_volatile_from(at(a), &mut s, count).map(|_| count) } else { b.read_volatile_from(at(a), &mut s, count) };
+                (rmap(r), data.len() - s.len())
+            }
+            1 => {
+                let mut c = Cursor::new(&data[..]);
+                c.set_position(p0 as u64);
+                let r = if exact { b.read_exact_volatile_from(at(a), &mut c, count).map(|_| count) } else { b.read_volatile_from(at(a), &mut c, count) };
+                (rmap(r), c.position() as usize - p0)
+            }
+            2 => {
+                let mut f = memfd(0);
+                f.write_all_at(&data, 0).map_err(|e| e.to_string())?;
+                let r = if exact { b.read_exact_volatile_from(at(a), &mut f, count).map(|_| count) } else { b.read_volatile_from(at(a), &mut f, count) };
+                (rmap(r), f.stream_position().map_err(|e| e.to_string())? as usize)
+            }
+            _ => {
+                let (mut rd, mut wr) = pipe_pair()?;
+                wr.write_all(&data).map_err(|e| e.to_string())?;
+                drop(wr);
+                let r = if exact { b.read_exact_volatile_from(at(a), &mut rd, count).map(|_| count) } else { b.read_volatile_from(at(a), &mut rd, count) };
+                let mut rest = Vec::new();
+                rd.read_to_end(&mut rest).map_err(|e| e.to_string())?;
+                ensure!(data.ends_with(&rest), "{}: what is left in the pipe is not a suffix of what was written", what);
+                (rmap(r), data.len() - rest.len())
+            }
+        };
+        // every byte consumed from the reader is stored at the next guest address, nothing else changes
+        ensure!(consumed <= count.min(run), "{}: {} bytes were consumed from the reader, only {} can be stored", what, consumed, count.min(run));
+        let mut want = model.clone();
+        for i in 0..consumed {
+            want.set(a.wrapping_add(i as u64), data[p0 + i]);
+        }
+        raw_compare(mem, &want, 0x5C).map_err(|e| format!("{}: {} bytes were consumed from the reader ({:?} returned); {}", what, consumed, res, e))?;
+        match &res {
+            Ok(n) if exact => ensure!(*n == count && consumed == count, "{}: success although {} of {} bytes were transferred", what, consumed, count),
+            Ok(n) => ensure!(*n == consumed, "{}: returned Ok({}) but {} bytes were consumed from the reader", what, n, consumed),
+            Err(e) if exact => ensure!(consumed < count, "{}: all {} bytes were transferred but the call failed with {}", what, count, e),
+            Err(e) => ensure!(consumed == 0 && run == 0, "{}: failed with {} after consuming {} bytes", what, e, consumed),
+        }
+        // a healthy reader and a valid target: the transfer happens
+        if run > 0 && avail > 0 && !exact {
+            ensure!(matches!(res, Ok(n) if n >= 1), "{}: nothing was transferred ({:?}) although the reader has data and the address is mapped", what, res);
+        }
+        if exact && avail >= count && count <= run {
+            ensure!(res.is_ok(), "{}: the reader holds the full count and the range is mapped, but the call failed with {:?}", what, res);
+        }
+    } else {
+        let p0 = if kind == 0 || kind == 2 { t.idx(4) } else { 0 };
+        let (res, accepted): (Result<usize, String>, Vec<u8>) = match kind {
+            0 => {
+                // a Vec never fills up; `avail` is its spare capacity before the call
+                let mut v: Vec<u8> = Vec::with_capacity(p0 + avail);
+                v.extend(std::iter::repeat(0xEEu8).take(p0));
+                let r = if exact { b.write_all_volatile_to(at(a), &mut v, count).map(|_| count) } else { b.write_volatile_to(at(a), &mut v, count) };
+                ensure!(v[..p0].iter().all(|b| *b == 0xEE), "{}: the bytes already in the vector changed", what);
+                (rmap(r), v[p0..].to_vec())
+            }
+            1 => {
+                let mut store = vec![0xEEu8; avail];
+                let left;
+                let r;
+                {
+                    let mut sink: &mut [u8] = &mut store[..];
+                    r = if exact { b.write_all_volatile_to(at(a), &mut sink, count).map(|_| count) } else { b.write_volatile_to(at(a), &mut sink, count) };
+                    left = sink.len();
+                }
+                store.truncate(avail - left);
+                (rmap(r), store)
+            }
+            2 => {
+                let mut store = vec![0xEEu8; p0 + avail];
+                let pos;
+                let r;
+                {
+                    let mut c = Cursor::new(&mut store[..]);
+                    c.set_position(p0 as u64);
+                    r = if exact { b.write_all_volatile_to(at(a), &mut c, count).map(|_| count) } else { b.write_volatile_to(at(a), &mut c, count) };
+                    pos = c.position() as usize;
+                }
+                ensure!(store[..p0].iter().all(|b| *b == 0xEE), "{}: bytes before the cursor changed", what);
+                (rmap(r), store[p0..pos].to_vec())
+            }
+            3 => {
+                let mut f = memfd(0);
+                let r = if exact { b.write_all_volatile_to(at(a), &mut f, count).map(|_| count) } else { b.write_volatile_to(at(a), &mut f, count) };
+                let n = f.stream_position().map_err(|e| e.to_string())? as usize;
+                (rmap(r), pread_all(&f, 0, n))
+            }
+            _ => {
+                let (mut rd, mut wr) = pipe_pair()?;
+                let r = if exact { b.write_all_volatile_to(at(a), &mut wr, count).map(|_| count) } else { b.write_volatile_to(at(a), &mut wr, count) };
+                drop(wr);
+                let mut got = Vec::new();
+                rd.read_to_end(&mut got).map_err(|e| e.to_string())?;
+                (rmap(r), got)
+            }
+        };
+        let unbounded = kind == 0 || kind >= 3;
+        let room = if unbounded { usize::MAX } else { avail };
+        let k = accepted.len();
+        ensure!(k <= count.min(run), "{}: the writer received {} bytes, at most {} were to be sent", what, k, count.min(run));
+        ensure!(accepted == model.read(a, k), "{}: the writer received {}, guest memory holds {}", what, hexs(&accepted), hexs(&model.read(a, k)));
+        raw_compare(mem, &model, 0x5C).map_err(|e| format!("{}: a transfer out of memory modified memory: {}", what, e))?;
+        match &res {
+            Ok(n) if exact => ensure!(*n == count && k == count, "{}: success although {} of {} bytes were handed to the writer", what, k, count),
+            Ok(n) => ensure!(*n == k, "{}: returned Ok({}) but the writer received {} bytes", what, n, k),
+            Err(e) if exact => ensure!(k < count, "{}: all {} bytes were written but the call failed with {}", what, count, e),
+            // the guest-level up-to form hands every region chunk to the writer in full; a writer
+            // that fills up before the transferable bytes are through is reported as WriteZero
+            Err(e) => ensure!((k == 0 && run == 0) || (k == room && room < count.min(run) && e.contains("WriteZero")), "{}: failed with {} after writing {} bytes", what, e, k),
+        }
+        if run > 0 && room >= count.min(run) && !exact {
+            ensure!(matches!(res, Ok(n) if n >= 1), "{}: nothing was transferred ({:?}) although the writer has room and the address is mapped", what, res);
+        }
+        if exact && room >= count && count <= run {
+            ensure!(res.is_ok(), "{}: the writer has room for the full count and the range is mapped, but the call failed with {:?}", what, res);
+        }
+    }
+    Ok(())
+}
+
+#[cfg(not(feature = "xen"))]
+fn run_adapters(t: &mut Tape, cx: &mut Cx) -> Result<(), String> {
+    let l0 = 1 + t.below(20);
+    let l1 = 1 + t.below(20);
+    let base = t.pick(&[0u64, 0x1000, 0xffff_ffff_ffff_f000]);
+    let mut regs = vec![(base, l0), (base + l0, l1)];
+    if t.flag() {
+        regs.push((base + l0 + l1 + 1 + t.below(8), 4));
+    }
+    let lay = Layout { regs };
+    let mem = build_mmap(&lay)?;
+    adapters_body(&mem, &lay, t, cx)
+}
+
+/// xen build: a one-page region followed by an adjacent short one, of generated kinds
+/// (Unix, foreign, grant mapped in advance / on demand): descriptors read and write straight
+/// into / out of temporary windows.
+#[cfg(feature = "xen")]
+fn run_adapters(t: &mut Tape, cx: &mut Cx) -> Result<(), String> {
+    use crate::xen_emul::{gen_kind, reset, Kind as XKind, XenMem};
+    reset();
+    let base = 0x1000 * (1 + t.below(3));
+    let lay = Layout { regs: vec![(base, 4096), (base + 4096, 1 + t.below(200))] };
+    let kinds = [gen_kind(t), gen_kind(t)];
+    note!(cx, "xen kinds {:?}", kinds);
+    if kinds.contains(&XKind::GrantOnDemand) {
+        cx.nt("xen_on_demand_region");
+    }
+    let mem = XenMem::build(&lay, &kinds)?;
+    adapters_body(&mem, &lay, t, cx)?;
+    ensure!(crate::xen_emul::live().len() <= kinds.iter().filter(|k| **k == XKind::GrantAdvance).count(), "temporary windows remain after the transfer: {:x?}", crate::xen_emul::live());
+    Ok(())
+}
+
 pub fn property() -> Property {
     Property {
         id: "C14",
@@ -417,6 +683,7 @@ pub fn property() -> Property {
         subchecks: vec![
             SubCheck { name: "slice", builds: &[Build::Std], kind: Kind::Random { quick: 60_000, thorough: 3_000_000, max_words: 48 }, run: run_slice },
             SubCheck { name: "guest", builds: &[Build::Std, Build::Xen], kind: Kind::Random { quick: 40_000, thorough: 1_500_000, max_words: 48 }, run: run_guest },
+            SubCheck { name: "crate_streams", builds: &[Build::Std, Build::Xen], kind: Kind::Random { quick: 6_000, thorough: 200_000, max_words: 32 }, run: run_adapters },
         ],
     }
 }
